@@ -65,8 +65,31 @@ def auto_patterns(fn, t):
     return hits
 
 
+def controls(ck):
+    """on the control crate: an unlisted cycle is reported; inside listed cycles the loop-as-recursion patterns fire;
+    the loop-ified twin is no cycle at all"""
+    import core
+    fx = core.fixture_facts()
+    ctl_table = [dict(members=["Skipper::pos_next_even"], **{"class": "nesting"}, reason="control", edges={"Skipper::pos_next_even -> Skipper::pos_next_even": 1}),
+                 dict(members=["pos_count_escapes"], **{"class": "nesting"}, reason="control", edges={"pos_count_escapes -> pos_count_escapes": 1})]
+    pr = core.Probe()
+    analyse(pr, fx, ctl_table, floor=0)
+    ck.control("R16.1", "pos_unclassified_depth (cycle not in the table)", pr.fired(r"^R16\.1@pos_unclassified_depth#unclassified$"))
+    ck.control("R16.2", "Skipper::pos_next_even (P1: self call with unchanged arguments)", pr.fired(r"^R16\.2@Skipper::pos_next_even#P1$"))
+    ck.control("R16.2", "pos_count_escapes (P2: self call on a suffix of its parameter)", pr.fired(r"^R16\.2@pos_count_escapes#P2$"))
+    ck.control("R16.1", "Skipper::neg_next_even (loop)", pr.fired(r"neg_next_even"), expect=False)
+    pr2 = core.Probe()
+    analyse(pr2, fx, [], floor=0)
+    ck.control("R16.1", "Skipper::pos_next_even (unlisted)", pr2.fired(r"^R16\.1@Skipper::pos_next_even#unclassified$"))
+
+
 def run(ck, facts, tier):
     facts.require_crates(["sophia_api", "sophia_inmem", "sophia_turtle", "sophia_sparql", "sophia_jsonld", "sophia_c14n"])
+    controls(ck)
+    analyse(ck, facts, TABLE, floor=20)
+
+
+def analyse(ck, facts, TABLE, floor):
     g, sites = collapsed_graph(facts)
     comps = []
     for c in callgraph.sccs(sorted(g), lambda n: sorted(g.get(n, ()))):
@@ -120,5 +143,5 @@ def run(ck, facts, tier):
                         else:
                             ck.bad("R16.2", "R16.2@%s#%s" % (a, pid), "%s %s" % (a, msg), "%s:%s" % (t["file"], t["line"]))
     # automatic patterns also apply to unclassified/new cycles (already violations) — nothing more to do.
-    ck.floor("R16.1", "recursive components analysed", len(comps), 20)
+    ck.floor("R16.1", "recursive components analysed", len(comps), floor)
     ck.extra["table_entries_unused"] = sorted(e["members"][0] for k, e in table.items() if k not in seen_entries)
